@@ -74,7 +74,7 @@ func genC18(t *rapid.T) *C18Case {
 	c.BodyLen = rapid.SampledFrom([]int{0, 1, c.ReqLimit - 1, c.ReqLimit, c.ReqLimit + 1, c.ReqLimit + 30, c.ReqLimit / 2}).Draw(t, "bodylen")
 	c.Chunked = rapid.Bool().Draw(t, "chunked")
 	c.UseServer = rapid.IntRange(0, 4).Draw(t, "server") == 0
-	c.ReadMode = rapid.SampledFrom([]string{"all", "all", "part", "none"}).Draw(t, "readmode")
+	c.ReadMode = rapid.SampledFrom([]string{"all", "all", "part", "none", "zero-then-all"}).Draw(t, "readmode")
 	c.ReadPart = rapid.IntRange(1, 10).Draw(t, "readpart")
 	c.Code = rapid.SampledFrom([]int{0, 200, 201, 404, 500, 204, 304}).Draw(t, "code")
 	c.CType = rapid.SampledFrom([]string{"text/plain", "text/plain", "image/png", ""}).Draw(t, "ctype")
@@ -171,6 +171,10 @@ func (c *C18Case) run() (*c18Result, *Failure) {
 		res.handlerInvoked = true
 		switch c.ReadMode {
 		case "all":
+			res.handlerRead, _ = io.ReadAll(r.Body)
+		case "zero-then-all":
+			// a zero-length read (io.Reader: "may return 0, nil") first, then everything
+			_, _ = r.Body.Read(nil)
 			res.handlerRead, _ = io.ReadAll(r.Body)
 		case "part":
 			buf := make([]byte, c.ReadPart)
@@ -463,7 +467,7 @@ func checkC18(c *C18Case) Result {
 	if flushBetween && nw >= 2 {
 		out.Labels = append(out.Labels, "writes-with-flush-between")
 	}
-	if c.ReqAccess && c.ReqAction == "ProcessPartial" && c.BodyLen > c.ReqLimit && c.ReadMode == "all" {
+	if c.ReqAccess && c.ReqAction == "ProcessPartial" && c.BodyLen > c.ReqLimit && (c.ReadMode == "all" || c.ReadMode == "zero-then-all") {
 		out.Labels = append(out.Labels, "partial-request-body-spliced")
 	}
 	if processable && c.RespAction == "ProcessPartial" && total > c.RespLimit {
